@@ -42,7 +42,7 @@ pub fn run(seed: u64, ntraces: usize) {
         let users = vec![owner.clone(), gop.clone(), relayer.clone(), u1.clone(), u2.clone(), target.clone()];
         let tok = b"TOK-123456".to_vec(); let tok2 = b"OTH-654321".to_vec();
         let sft = b"SFT-abcdef".to_vec(); let sftk = |n: u64| { let mut k = sft.clone(); k.push(b'#'); k.extend_from_slice(&n.to_be_bytes()); k };
-        for u in &users { w.add_user(u, 1_000_000); w.add_esdt(u, &tok, 1_000_000); w.add_esdt(u, &tok2, 1_000_000); w.add_sft(u, &sft, 5, 1000); w.add_sft(u, &sft, 6, 1000); }
+        for u in &users { w.add_user(u, 12_000_000_000_000_000_000); w.add_esdt(u, &tok, 1_000_000); w.add_esdt(u, &tok2, 1_000_000); w.add_sft(u, &sft, 5, 1000); w.add_sft(u, &sft, 6, 1000); }
         let gw = sc_addr(0x10); let gov = sc_addr(0x11);
         let pool = Pool::new(); let mut tab = SigTab(vec![]);
         let set = SSet { signers: vec![SignerE { pk: pool.pk(0), key: Some(0), weight: bn(1) }], threshold: bn(1), nonce: vec![7u8; 32] };
@@ -56,7 +56,7 @@ pub fn run(seed: u64, ntraces: usize) {
         // the governance contract owns some EGLD for proposals with a native value
         let gov_funds: u64 = if t % 8 == 4 { 0 } else { 500 };      // a contract without own funds: credits can exceed what it holds
         w.r.blockchain_mock.state.accounts.get_mut(&gov).unwrap().egld_balance += bn(gov_funds);
-        let mut funds: Vec<Value> = users.iter().map(|u| json!([hx(u.as_bytes()), "1000000", [[hx(&tok), "1000000"], [hx(&tok2), "1000000"], [hx(&sftk(5)), "1000"], [hx(&sftk(6)), "1000"]]])).collect();
+        let mut funds: Vec<Value> = users.iter().map(|u| json!([hx(u.as_bytes()), "12000000000000000000", [[hx(&tok), "1000000"], [hx(&tok2), "1000000"], [hx(&sftk(5)), "1000"], [hx(&sftk(6)), "1000"]]])).collect();
         funds.push(json!([hx(gov.as_bytes()), gov_funds.to_string(), []]));
         let init = json!({"gov": hx(gov.as_bytes()), "gw": hx(gw.as_bytes()), "owner": hx(owner.as_bytes()), "gwnow": gwnow, "retention": 2, "domain": hx(&domain),
             "gwdelay": 0, "gwop": hx(owner.as_bytes()), "signers": [hx(&set.encode(0))], "chain": hx(&gchain), "gaddr": hx(&gaddr), "min_delay": min_delay,
@@ -70,6 +70,7 @@ pub fn run(seed: u64, ntraces: usize) {
             Prop { target: target.clone(), call_data: vec![0, 0, 0, 9, 1], value: 0 },                     // undecodable call data
             Prop { target: target.clone(), call_data: call_data(b"gas", &[], 999_000_000), value: 0 },     // min gas above what is available
             Prop { target: target.clone(), call_data: call_data(b"pay", &[], 0), value: 5 },
+            Prop { target: target.clone(), call_data: call_data(b"doIt", &[vec![1, 2, 3]], 0), value: 1u64 << 63 },      // proposal 0 with a value of 2^63: another proposal
             Prop { target: target.clone(), call_data: call_data(b"configure", &[vec![], vec![1, 244], vec![]], 0), value: 0 },      // empty arguments are arguments: the call is dispatched with all three
         ];
         let mut steps: Vec<Value> = vec![];
@@ -94,11 +95,15 @@ pub fn run(seed: u64, ntraces: usize) {
                                      ("cmd", 6, 0, 0), ("jump", 6, 0, 0), ("exec", 6, 0, 5), ("deliver_ok", 0, 0, 0), ("callback", 0, 0, 0), ("refund", 0, 0, 0), ("refund", 0, 0, 0)]; }
         // the SAME dispatcher fails twice with EGLD attached before withdrawing: the credits add up (7 + 7), then one withdrawal takes all
         if t % 8 == 6 { queue = vec![("cmd", 0, 0, 0), ("jump", 0, 0, 0), ("exec", 0, 2, 1), ("deliver_fail", 0, 0, 0), ("callback", 0, 0, 0),
-                                     ("exec", 0, 2, 1), ("deliver_fail", 0, 0, 0), ("callback", 0, 0, 0), ("exec", 0, 2, 5), ("deliver_fail", 0, 0, 0), ("callback", 0, 0, 0), ("refund", 0, 0, 0), ("refund", 0, 0, 0)]; }
+                                     ("exec", 0, 2, 1), ("deliver_fail", 0, 0, 0), ("callback", 0, 0, 0), ("exec", 0, 2, 5), ("deliver_fail", 0, 0, 0), ("callback", 0, 0, 0), ("refund", 0, 0, 0), ("refund", 0, 0, 0),
+                                     // ... and twice with 5e18 EGLD: the credit passes 2^63 and is withdrawn in full
+                                     ("exec", 0, 2, 10), ("deliver_fail", 0, 0, 0), ("callback", 0, 0, 0), ("exec", 0, 2, 10), ("deliver_fail", 0, 0, 0), ("callback", 0, 0, 0), ("refund", 0, 0, 0)]; }
         if t % 8 == 3 { queue = vec![("cmd", 0, 0, 0), ("jump", 0, 0, 0), ("exec", 0, 0, 7), ("xfer_op", 0, 0, 0), ("deliver_fail", 0, 0, 0), ("callback", 0, 0, 0), ("refund", 0, 0, 0)]; }
         // a proposal with EMPTY arguments dispatched on both paths: the target receives the scheduled call, argument for argument
-        if t % 8 == 5 { queue = vec![("cmd", 7, 0, 0), ("jump", 7, 0, 0), ("exec", 7, 0, 0), ("deliver_ok", 0, 0, 0), ("callback", 0, 0, 0),
-                                     ("cmd", 7, 2, 0), ("exec", 7, 1, 0), ("deliver_ok", 0, 0, 0), ("callback", 0, 0, 0)]; }
+        if t % 8 == 5 { queue = vec![("cmd", 8, 0, 0), ("jump", 8, 0, 0), ("exec", 8, 0, 0), ("deliver_ok", 0, 0, 0), ("callback", 0, 0, 0),
+                                     ("cmd", 8, 2, 0), ("exec", 8, 1, 0), ("deliver_ok", 0, 0, 0), ("callback", 0, 0, 0),
+                                     // proposal 0 approved / scheduled; dispatching it with a value of 2^63 is another proposal: refused on both paths
+                                     ("cmd", 0, 2, 0), ("exec", 7, 1, 0), ("exec", 0, 1, 0), ("cmd", 0, 0, 0), ("jump", 0, 0, 0), ("exec", 7, 0, 0), ("exec", 0, 0, 0)]; }
         // an executed command, then somebody calls the gateway's validateMessage for it directly, the public batch is submitted again and the command replayed: refused
         if t % 8 == 7 { queue = vec![("cmd", 1, 2, 0), ("exec", 1, 1, 0), ("deliver_ok", 0, 0, 0), ("callback", 0, 0, 0), ("stray", 0, 0, 0), ("exec", 1, 1, 0)]; }
         for _ in 0..nops {
@@ -183,6 +188,7 @@ pub fn run(seed: u64, ntraces: usize) {
                 let (egld, esdt): (u64, Vec<(Vec<u8>, u64, BigUint)>) = match if let Some(("exec", _, _, sh)) = forced { if sh > 0 { sh - 1 } else { r.below(9) } } else { r.below(9) } {
                     8 => (0, (0..12).map(|i| (if i % 2 == 0 { tok.clone() } else { tok2.clone() }, 0u64, bn(1 + i as u64))).collect()),      // twelve transfers: every one is credited on failure
                     6 => (0, vec![(sft.clone(), 5, bn(7))]), 7 => (0, vec![(sft.clone(), 5, bn(2)), (sft.clone(), 6, bn(3)), (tok.clone(), 0, bn(1))]),
+                    9 => (5_000_000_000_000_000_000, vec![]),      // 5e18: two of these credited to one account add up to more than 2^63
                     0 => (7, vec![]), 1 => (0, vec![(tok.clone(), 0, bn(11))]), 2 => (0, vec![(tok.clone(), 0, bn(5)), (tok2.clone(), 0, bn(6))]),
                     3 => (0, vec![(tok.clone(), 0, bn(3)), (tok.clone(), 0, bn(4))]), _ => (0, vec![]) };
                 let mut value = p.value; if forced.is_none() && r.chance(1, 12) { value += 1; }     // other value: different proposal
